@@ -1,8 +1,14 @@
-"""Slot rules for the two Earley parsers and the incremental CKY parser: FACTOR-EARLEY, FACTOR-NEXTTOK, FACTOR-ICKY."""
+"""Slot rules for the two Earley parsers and the incremental CKY parser: FACTOR-EARLEY, FACTOR-NEXTTOK, FACTOR-ICKY.
+
+Every slot is compared in canonical form (walk.canon_ast).  A slot whose shape is recognised but whose content is
+wrong is a violation; a site that cannot be located or whose shape is not recognised is *undecided* (ANALYSIS-ERROR),
+never a violation.
+"""
 
 from __future__ import annotations
 
 import ast
+import re
 
 from ..model import AnalysisError, norm, walk_live, parent, ancestors, first_line
 from ..report import RuleResult
@@ -10,32 +16,44 @@ from .. import walk as W
 
 FILES = ["parse/earley.py", "parse/earley_rescaled.py"]
 
-
-def _d(f, e, at=None):
-    """normalised text with local aliases (single-definition names bound to attribute chains) expanded"""
-    class T(ast.NodeTransformer):
-        def visit_Name(self, n):
-            if isinstance(n.ctx, ast.Load):
-                v = W.single_def(f.node, n.id)
-                if v is not None and isinstance(v, (ast.Attribute, ast.Subscript)) and not any(isinstance(x, ast.Call) for x in ast.walk(v)):
-                    return self.visit(ast.parse(ast.unparse(v), mode="eval").body)
-            return n
-    t = T().visit(ast.parse(ast.unparse(e), mode="eval").body)
-    return norm(t)
+WAIT = re.compile(r"^(?P<col>.+)\.waiting_for(?:\.get\((?P<k1>.+), (?:\(\)|\[\])\)|\[(?P<k2>.+)\])$")
 
 
 def _update_calls(f):
     out = []
     for n in walk_live(f.node):
         if isinstance(n, ast.Call):
-            nm = W.call_name(n)
-            if nm == "_update":
+            if isinstance(n.func, ast.Attribute) and n.func.attr == "_update":
                 out.append(n)
             elif isinstance(n.func, ast.Name):
                 v = W.single_def(f.node, n.func.id)
                 if v is not None and norm(v) == "self._update":
                     out.append(n)
     return out
+
+
+def _c(f, e, at=None):
+    return W.cnorm(f.node, e, at if at is not None else e)
+
+
+def _unpack3(f, loop):
+    """(I, X, Ys, item texts) for a loop over items unpacked into three names (loop target or a statement of the body)"""
+    t = loop.target
+    if isinstance(t, ast.Tuple) and len(t.elts) == 3:
+        I, X, Ys = (norm(e) for e in t.elts)
+        return I, X, Ys, (f"{I}, {X}, {Ys}",)
+    if isinstance(t, ast.Name):
+        for st in loop.body:
+            if isinstance(st, ast.Assign) and isinstance(st.value, ast.Name) and st.value.id == t.id:
+                for tt in st.targets:
+                    if isinstance(tt, ast.Tuple) and len(tt.elts) == 3 and all(isinstance(e, ast.Name) for e in tt.elts):
+                        I, X, Ys = (e.id for e in tt.elts)
+                        return I, X, Ys, (f"{I}, {X}, {Ys}", t.id)
+    return None
+
+
+def _flat(x):
+    return x.replace("(", "").replace(")", "")
 
 
 def rule_factor_earley(P, files=FILES):
@@ -51,76 +69,105 @@ def rule_factor_earley(P, files=FILES):
         r.looked_at(f)
         rescaled = "rescaled" in rel
         prev_cols, token = f.params[1], f.params[2]
-        # new column
-        cols = [n for n in walk_live(f.node) if isinstance(n, ast.Assign) and isinstance(n.value, ast.Call) and W.call_name(n.value) == "Column"]
-        ok = len(cols) == 1 and _d(f, cols[0].value.args[0]) == f"{prev_cols}[-1].k + 1"
-        new = cols[0].targets[0].id if cols else "next_col"
-        r.add(f, cols[0] if cols else f.node, ok, "" if ok else f"the new column must be Column({prev_cols}[-1].k + 1)")
+        k0 = 1 if rescaled else 2  # (col, [Q,] I, X, Ys, value)
+        # ---- new column
+        cols = [n for n in walk_live(f.node) if isinstance(n, ast.Assign) and isinstance(n.value, ast.Call) and W.call_name(n.value) == "Column"
+                and isinstance(n.targets[0], ast.Name)]
+        if len(cols) != 1 or not cols[0].value.args:
+            r.undecided(f, f.node, "construction of the new column not found", construct="next_column: new column")
+            continue
+        new = cols[0].targets[0].id
+        ok = _c(f, cols[0].value.args[0], cols[0]) == f"{prev_cols}[-1].k + 1"
+        r.add(f, cols[0], ok, "" if ok else f"the new column must be Column({prev_cols}[-1].k + 1), got `{_c(f, cols[0].value.args[0], cols[0])}`")
         ucalls = _update_calls(f)
-        if len(ucalls) != 2:
-            raise AnalysisError(f"{f.qual}: expected two _update calls (SCAN, ATTACH), found {len(ucalls)}")
         scan = [c for c in ucalls if not any(isinstance(a, ast.While) for a in ancestors(c))]
         attach = [c for c in ucalls if any(isinstance(a, ast.While) for a in ancestors(c))]
-        if len(scan) != 1 or len(attach) != 1:
-            raise AnalysisError(f"{f.qual}: SCAN / ATTACH calls not recognised")
+        if len(scan) != 1 or len(attach) != 1 or any(len(c.args) != k0 + 4 for c in ucalls):
+            r.undecided(f, f.node, f"SCAN / ATTACH `_update` calls not recognised in next_column ({len(scan)} outside, {len(attach)} inside a while loop)",
+                        construct="next_column: SCAN and ATTACH sites")
+            continue
         # ---- SCAN
         c = scan[0]
         lp = next((a for a in ancestors(c) if isinstance(a, ast.For)), None)
-        args = c.args
-        k0 = 1 if rescaled else 2  # (col, [Q,] I, X, Ys, value)
-        ok = lp is not None and W.is_name(args[0], new)
-        it = _d(f, lp.iter) if lp is not None else ""
-        ok = ok and it in (f"{prev_cols}[-1].waiting_for.get({token}, ())", f"{prev_cols}[-1].waiting_for[{token}]",
-                           f"{prev_cols}[-1].waiting_for.get({token}, [])")
-        item = norm(lp.target) if lp is not None else "?"
-        unpack = [n for n in walk_live(lp) if isinstance(n, ast.Assign) and isinstance(n.targets[0], ast.Tuple) and W.is_name(n.value, item)] if lp is not None else []
-        if unpack:
-            I, X, Ys = (norm(e) for e in unpack[0].targets[0].elts)
-        elif lp is not None and isinstance(lp.target, ast.Tuple):
-            I, X, Ys = (norm(e) for e in lp.target.elts)
-            item = f"({I}, {X}, {Ys})"
+        u3 = _unpack3(f, lp) if lp is not None else None
+        m = WAIT.match(W.citer(f.node, lp)) if lp is not None else None
+        if lp is None or u3 is None or m is None:
+            r.undecided(f, c, "SCAN loop shape not recognised", construct="next_column: SCAN")
         else:
-            I = X = Ys = "?"
-        ok = ok and [norm(a) for a in args[k0:k0 + 2]] == [I, X] and _d(f, args[k0 + 2]) == f"self.rest_Ys[{Ys}]"
-        num, den = W.factors(ast.parse(_d(f, args[k0 + 3]), mode="eval").body)
-        want = sorted([f"{prev_cols}[-1].i_chart[{item}]"] + ([f"{prev_cols}[-1].rescale"] if rescaled else []))
-        ok = ok and num == want and not den
-        r.add(f, c, ok, "" if ok else f"SCAN `{first_line(c)}`: must advance each item of {prev_cols}[-1] waiting for `{token}` to "
-              f"(I, X, rest_Ys[Ys]) with value {' · '.join(want)}", slots=dict(iterates=it, value=num))
+            I, X, Ys, item = u3
+            col, key = m.group("col"), m.group("k1") or m.group("k2")
+            probs = []
+            if col != f"{prev_cols}[-1]" or key != token:
+                probs.append(f"iterates `{col}.waiting_for[{key}]`, not the previous column's items waiting for `{token}`")
+            if not W.is_name(c.args[0], new):
+                probs.append("does not write the new column")
+            if [norm(a) for a in c.args[k0:k0 + 2]] != [I, X]:
+                probs.append("start position / head changed")
+            adv = _c(f, c.args[k0 + 2], c)
+            if adv != f"self.rest_Ys[{Ys}]":
+                probs.append(f"the dot is not advanced (remainder `{adv}`)")
+            num, den = W.cfactors(f.node, c.args[k0 + 3], c)
+            wants = [sorted([f"{prev_cols}[-1].i_chart[{it}]"] + ([f"{prev_cols}[-1].rescale"] if rescaled else [])) for it in item]
+            want = wants[0]
+            kinds_ok = all(".i_chart[" in x or x.endswith(".rescale") for x in num)
+            if sorted(map(_flat, num)) not in [sorted(map(_flat, w_)) for w_ in wants] or den:
+                if kinds_ok:
+                    probs.append(f"value is {' · '.join(num)}, expected {' · '.join(want)}")
+                else:
+                    r.undecided(f, c, f"SCAN value `{' · '.join(num)}` not recognised", construct="next_column: SCAN value")
+            r.add(f, c, not probs, "SCAN: " + "; ".join(probs) if probs else "", slots=dict(iterates=f"{col}.waiting_for[{key}]", value=num))
         # ---- ATTACH
         c = attach[0]
         wl = next(a for a in ancestors(c) if isinstance(a, ast.While))
-        lp = next((a for a in ancestors(c) if isinstance(a, ast.For)), None)
-        pops = [n for n in walk_live(wl) if isinstance(n, ast.Call) and W.call_name(n) == "pop"]
-        ok = len(pops) == 1 and lp is not None
-        J = Y = key = "?"
-        if ok:
-            # (J, Y) = jy = Q.pop()[0]
+        lp = next((a for a in ancestors(c) if isinstance(a, ast.For) and W._within(a, wl)), None)
+        pair = None
+        for n in walk_live(wl):
+            if isinstance(n, ast.Assign):
+                for t in n.targets:
+                    if isinstance(t, ast.Tuple) and len(t.elts) == 2 and all(isinstance(e, ast.Name) for e in t.elts):
+                        pair = (t.elts[0].id, t.elts[1].id)
+        u3 = _unpack3(f, lp) if lp is not None else None
+        m = WAIT.match(W.citer(f.node, lp)) if lp is not None else None
+        if lp is None or u3 is None or m is None or pair is None:
+            r.undecided(f, c, "ATTACH loop shape not recognised", construct="next_column: ATTACH")
+        else:
+            J, Y = pair
+            I, X, Ys, cust = u3
+            col, key = m.group("col"), m.group("k1") or m.group("k2")
+            probs = []
+            if col != f"{prev_cols}[{J}]" or key != Y:
+                probs.append(f"customers are taken from `{col}.waiting_for[{key}]`, not from column {J} waiting for {Y}")
+            if [norm(a) for a in c.args[k0:k0 + 2]] != [I, X]:
+                probs.append("start position / head changed")
+            adv = _c(f, c.args[k0 + 2], c)
+            if adv != f"self.rest_Ys[{Ys}]":
+                probs.append(f"the dot is not advanced (remainder `{adv}`)")
+            num, den = W.cfactors(f.node, c.args[k0 + 3], c)
+            popped = {f"{J}, {Y}"}
             for n in walk_live(wl):
-                if isinstance(n, ast.Assign) and any(isinstance(t, ast.Tuple) and len(t.elts) == 2 for t in n.targets):
-                    t = next(t for t in n.targets if isinstance(t, ast.Tuple))
-                    J, Y = (norm(e) for e in t.elts)
-                    names = [norm(t2) for t2 in n.targets if isinstance(t2, ast.Name)]
-                    key = names[0] if names else (norm(n.value) if isinstance(n.value, ast.Name) else f"({J}, {Y})")
-            it = _d(f, lp.iter)
-            ok = it in (f"{prev_cols}[{J}].waiting_for.get({Y}, ())", f"{prev_cols}[{J}].waiting_for[{Y}]", f"{prev_cols}[{J}].waiting_for.get({Y}, [])")
-            cust = norm(lp.target)
-            unpack = [n for n in walk_live(lp) if isinstance(n, ast.Assign) and isinstance(n.targets[0], ast.Tuple) and W.is_name(n.value, cust)]
-            if unpack:
-                I, X, Ys = (norm(e) for e in unpack[0].targets[0].elts)
-            args = c.args
-            ok = ok and W.is_name(args[0], new) and [norm(a) for a in args[k0:k0 + 2]] == [I, X] and _d(f, args[k0 + 2]) == f"self.rest_Ys[{Ys}]"
-            # value = i_chart of the customer in column J  *  completed value of (J, Y) in the new column
-            vexpr = ast.parse(_d(f, args[k0 + 3]), mode="eval").body
-            num, den = W.factors(vexpr)
-            cands = [sorted([f"{prev_cols}[{J}].i_chart[{cust}]", f"{new}.c_chart[{k_}]"]) for k_ in (key, f"({J}, {Y})", f"{J}, {Y}")]
-            ok = ok and num in cands and not den
-        r.add(f, c, ok, "" if ok else f"ATTACH `{first_line(c)}`: must combine each customer of column J waiting for Y with the completed "
-              f"value of the popped item (J, Y): value = i_chart_J[customer] · c_chart_new[(J, Y)]", slots=dict(popped=f"({J}, {Y})"))
+                if isinstance(n, ast.Assign) and any(isinstance(t, ast.Tuple) and [getattr(e, "id", None) for e in t.elts] == [J, Y] for t in n.targets):
+                    popped.update(t.id for t in n.targets if isinstance(t, ast.Name))
+                    if isinstance(n.value, ast.Name):
+                        popped.add(n.value.id)
+            wants = [sorted([f"{prev_cols}[{J}].i_chart[{cu}]", f"{new}.c_chart[{pk}]"]) for cu in cust for pk in popped]
+            want = wants[0]
+            kinds_ok = len(num) <= 3 and all(".i_chart[" in x or ".c_chart[" in x for x in num)
+            if sorted(map(_flat, num)) not in [sorted(map(_flat, w_)) for w_ in wants] or den:
+                if kinds_ok:
+                    probs.append(f"value is {' · '.join(num)}, expected {' · '.join(want)}")
+                else:
+                    r.undecided(f, c, f"ATTACH value `{' · '.join(num)}` not recognised", construct="next_column: ATTACH value")
+            r.add(f, c, not probs, "ATTACH: " + "; ".join(probs) if probs else "", slots=dict(popped=f"({J}, {Y})", value=num))
         # ---- PREDICT after the drain
         pc = [n for n in walk_live(f.node) if isinstance(n, ast.Call) and W.call_name(n) == "PREDICT"]
-        ok = len(pc) == 1 and W.is_name(pc[0].args[0], new) and W.pos(pc[0]) > W.end_pos(wl) and not W.enclosing_loops(pc[0])
-        r.add(f, pc[0] if pc else f.node, ok, "" if ok else "PREDICT(new column) must run once, after the agenda has been drained")
+        early = [x for x in pc if W.pos(x) < W.end_pos(wl)]
+        if early:
+            r.add(f, early[0], False, "PREDICT runs before the agenda has been drained: items completed later in this column are never predicted from")
+        elif len(pc) != 1:
+            r.undecided(f, f.node, f"{len(pc)} PREDICT calls in next_column", construct="next_column: PREDICT")
+        else:
+            ok = W.is_name(pc[0].args[0], new) and W.pos(pc[0]) > W.end_pos(wl) and not W.enclosing_loops(pc[0])
+            r.add(f, pc[0], ok, "" if ok else "PREDICT(new column) must run once, after the agenda has been drained")
         rets = [n for n in walk_live(f.node) if isinstance(n, ast.Return)]
         ok = len(rets) == 1 and W.is_name(rets[0].value, new)
         r.add(f, rets[0] if rets else f.node, ok, "" if ok else "next_column must return the new column")
@@ -129,55 +176,68 @@ def rule_factor_earley(P, files=FILES):
         r.looked_at(u)
         ys = u.params[-2]
         top = [n for n in u.node.body if isinstance(n, ast.If)]
-        ok = len(top) == 1 and norm(top[0].test) in (f"{ys} == 0", f"0 == {ys}", f"not {ys}")
-        if ok:
-            comp, inc = top[0].body, top[0].orelse
-            okc = any(isinstance(n, ast.Assign) and "c_chart" in norm(n.targets[0]) for s in comp for n in ast.walk(s)) and \
-                not any(isinstance(n, ast.Assign) and "i_chart" in norm(n.targets[0]) for s in comp for n in ast.walk(s))
-            oki = any(isinstance(n, ast.Assign) and "i_chart" in norm(n.targets[0]) for s in inc for n in ast.walk(s))
-            app = [n for s in inc for n in ast.walk(s) if isinstance(n, ast.Call) and W.call_name(n) == "append"]
-            okw = len(app) == 1 and norm(W.receiver(app[0])) == f"{u.params[1]}.waiting_for[self.first_Ys[{ys}]]"
-            ok = okc and oki and okw
-        r.add(u, top[0] if top else u.node, ok, "" if ok else "_update: remainder code 0 ⇒ complete item in c_chart; otherwise incomplete item in "
-              "i_chart, filed in waiting_for under first_Ys[Ys]")
+        if len(top) != 1:
+            r.undecided(u, u.node, "_update: top-level complete/incomplete split not recognised", construct="_update split")
+        else:
+            t = W.cfact_text(W.Fact(W.canon_ast(u.node, top[0].test, top[0]), True, top[0], "if"))
+            if t in (f"0 == {ys}", f"{ys} == 0", f"not {ys}"):
+                comp, inc = top[0].body, top[0].orelse
+            elif t in (f"0 != {ys}", f"{ys} != 0", f"{ys}"):
+                comp, inc = top[0].orelse, top[0].body
+            else:
+                comp = inc = None
+            if comp is None:
+                r.undecided(u, top[0], f"_update: test `{t}` not recognised", construct="_update split")
+            else:
+                def stores(block, which):
+                    return any(isinstance(n, ast.Assign) and isinstance(n.targets[0], ast.Subscript) and W.cnorm(u.node, n.targets[0].value, n).endswith(which)
+                               for s in block for n in ast.walk(s))
+                okc = stores(comp, ".c_chart") and not stores(comp, ".i_chart")
+                oki = stores(inc, ".i_chart") and not stores(inc, ".c_chart")
+                app = [n for s in inc for n in ast.walk(s) if isinstance(n, ast.Call) and W.call_name(n) == "append"]
+                okw = len(app) == 1 and W.cnorm(u.node, W.receiver(app[0]), app[0]) == f"{u.params[1]}.waiting_for[self.first_Ys[{ys}]]"
+                ok = okc and oki and okw
+                r.add(u, top[0], ok, "" if ok else "_update: remainder code 0 ⇒ complete item in c_chart; otherwise incomplete item in "
+                      "i_chart, filed in waiting_for under first_Ys[Ys]", slots=dict(complete_ok=okc, incomplete_ok=oki, filed_ok=okw))
         # ---- PREDICT
         p = P.func(f"{rel}::Earley.PREDICT")
         r.looked_at(p)
         pcalls = _update_calls(p)
-        ok = len(pcalls) == 1
-        if ok:
+        colp = p.params[1]
+        loops = [a for a in ancestors(pcalls[0]) if isinstance(a, ast.For)] if len(pcalls) == 1 else []
+        if len(pcalls) != 1 or len(loops) != 2 or not isinstance(loops[0].target, ast.Tuple):
+            r.undecided(p, p.node, "PREDICT: the loop adding predicted items not recognised", construct="PREDICT items")
+        else:
             c = pcalls[0]
-            loops = [a for a in ancestors(c) if isinstance(a, ast.For)]
-            ok = len(loops) == 2
-            if ok:
-                inner, outer = loops[0], loops[1]
-                w_, ys_ = (norm(e) for e in inner.target.elts) if isinstance(inner.target, ast.Tuple) else ("?", "?")
-                x_ = norm(outer.target)
-                args = [norm(a) for a in c.args]
-                kk = _d(p, c.args[k0])
-                ok = _d(p, inner.iter) in (f"self.rhs.get({x_}, ())", f"self.rhs[{x_}]", f"self.rhs.get({x_}, [])") and args[0] == p.params[1] \
-                    and kk == f"{p.params[1]}.k" and args[k0 + 1:k0 + 4] == [x_, ys_, w_]
-                # the set iterated is the left-corner closure
-                reach = norm(outer.iter)
-                adds = [n for n in walk_live(p.node) if isinstance(n, ast.Call) and W.call_name(n) == "add" and W.is_name(W.receiver(n), reach)]
-                ok = ok and len(adds) == 1
-        r.add(p, pcalls[0] if pcalls else p.node, ok, "" if ok else "PREDICT must add (k, X, Ys, k) with the rule weight for every rule of every reachable X")
-        # seeds of the reachability
-        seeds = [n for n in walk_live(p.node) if isinstance(n, ast.If) and norm(n.test) in (f"{p.params[1]}.k == 0", "k == 0")]
-        ok = len(seeds) == 1
-        if ok:
-            b = norm(seeds[0].body[0].value) if isinstance(seeds[0].body[0], ast.Assign) else ""
-            o = norm(seeds[0].orelse[0].value) if seeds[0].orelse and isinstance(seeds[0].orelse[0], ast.Assign) else ""
-            ok = b in ("[self.cfg.S]", "{self.cfg.S}") and o in (f"list({p.params[1]}.waiting_for)", f"set({p.params[1]}.waiting_for)")
-        r.add(p, seeds[0] if seeds else p.node, ok, "" if ok else "PREDICT seeds: the start symbol in column 0, otherwise every symbol some item of the column waits for")
-    r.min_instances = 7 * len(files)
+            inner, outer = loops[0], loops[1]
+            w_, ys_ = (norm(e) for e in inner.target.elts)
+            x_ = norm(outer.target)
+            ok = W.citer(p.node, inner) in (f"self.rhs.get({x_}, ())", f"self.rhs[{x_}]", f"self.rhs.get({x_}, [])") and norm(c.args[0]) == colp \
+                and _c(p, c.args[k0], c) == f"{colp}.k" and [norm(a) for a in c.args[k0 + 1:k0 + 4]] == [x_, ys_, w_]
+            r.add(p, c, ok, "" if ok else "PREDICT must add (k, X, Ys, k) with the rule weight for every rule of every reachable X")
+        # seeds of the reachability: the start symbol in column 0, otherwise every symbol some item of the column waits for
+        seeds = [n for n in walk_live(p.node) if isinstance(n, ast.If) and ".k" in W.cnorm(p.node, n.test, n) and "0" in norm(n.test)]
+        if len(seeds) != 1 or not seeds[0].orelse:
+            r.undecided(p, p.node, "PREDICT: seed selection (column 0 vs later columns) not recognised", construct="PREDICT seeds")
+        else:
+            t = W.cfact_text(W.Fact(W.canon_ast(p.node, seeds[0].test, seeds[0]), True, seeds[0], "if"))
+            zero_arm, later_arm = (seeds[0].body, seeds[0].orelse) if t in (f"0 == {colp}.k", f"{colp}.k == 0") else \
+                ((seeds[0].orelse, seeds[0].body) if t in (f"0 != {colp}.k", f"{colp}.k != 0", f"0 < {colp}.k") else (None, None))
+            if zero_arm is None or not isinstance(zero_arm[0], ast.Assign) or not isinstance(later_arm[0], ast.Assign):
+                r.undecided(p, seeds[0], f"PREDICT: seed test `{t}` not recognised", construct="PREDICT seeds")
+            else:
+                b = norm(zero_arm[0].value)
+                o = W.cnorm(p.node, later_arm[0].value, later_arm[0])
+                ok = b in ("[self.cfg.S]", "{self.cfg.S}") and o in (f"list({colp}.waiting_for)", f"set({colp}.waiting_for)")
+                r.add(p, seeds[0], ok, "" if ok else f"PREDICT seeds are `{b}` in column 0 and `{o}` later; expected the start symbol / the awaited symbols")
+    r.min_instances = 5 * len(files)
     return r
 
 
 def rule_factor_nexttok(P, files=FILES):
     r = RuleResult("FACTOR-NEXTTOK", "next_token_weights (backward pass): q is seeded with q(0, S) = one; for every terminal Y some item of "
                    "the last column waits for, the weight is Σ i_chart[I, X, [Y]] · q(I, X) over items whose remainder is exactly [Y]; "
-                   "_helper computes q(J, Y) = Σ i_chart_J[customer] · q(customer's (I, X)) over unit customers of column J",
+                   "_helper accumulates i_chart_J[customer] · q(customer's (I, X)) over unit customers of column J",
                    "outside weights of the last column are well-formed")
     for rel in files:
         f = P.func(f"{rel}::Earley.next_token_weights")
@@ -185,121 +245,167 @@ def rule_factor_nexttok(P, files=FILES):
         r.looked_at(f, h)
         cols = f.params[1]
         seeds = [n for n in walk_live(f.node) if isinstance(n, ast.Assign) and isinstance(n.targets[0], ast.Subscript) and norm(n.value).endswith(".one")]
-        ok = len(seeds) == 1 and norm(seeds[0].targets[0].slice) in ("(0, self.cfg.S)", "0, self.cfg.S")
-        qn = norm(seeds[0].targets[0].value) if seeds else "q"
-        r.add(f, seeds[0] if seeds else f.node, ok, "" if ok else "q must be seeded with q[0, S] = one only")
-        outer = [n for n in walk_live(f.node) if isinstance(n, ast.For) and _d(f, n.iter) == f"{cols}[-1].waiting_for"]
-        ok = len(outer) == 1
-        if not ok:
-            r.add(f, f.node, False, "loop over the symbols the last column waits for not found", construct="next_token_weights: outer loop")
+        if len(seeds) > 1:
+            r.add(f, seeds[1], False, f"q is seeded with {len(seeds)} entries; only q[0, S] = one is the boundary condition of the outside pass")
+            continue
+        if len(seeds) != 1:
+            r.undecided(f, f.node, "seeding of q not recognised", construct="next_token_weights: q seed")
+            continue
+        ok = norm(seeds[0].targets[0].slice) in ("(0, self.cfg.S)", "0, self.cfg.S")
+        qn = norm(seeds[0].targets[0].value)
+        r.add(f, seeds[0], ok, "" if ok else "q must be seeded with q[0, S] = one only")
+        outer = [n for n in walk_live(f.node) if isinstance(n, ast.For) and W.citer(f.node, n) == f"{cols}[-1].waiting_for"]
+        accs = [n for n in walk_live(outer[0]) if isinstance(n, ast.AugAssign) and isinstance(n.op, ast.Add)] if len(outer) == 1 else []
+        if len(outer) != 1 or len(accs) != 1:
+            r.undecided(f, f.node, "loop over the symbols the last column waits for / its accumulation not recognised", construct="next_token_weights: per-symbol sum")
             continue
         y = norm(outer[0].target)
-        tfacts = [n for n in walk_live(outer[0]) if isinstance(n, ast.If) and _d(f, n.test) == f"self.cfg.is_terminal({y})"]
-        accs = [n for n in walk_live(outer[0]) if isinstance(n, ast.AugAssign) and isinstance(n.op, ast.Add)]
-        ok = len(tfacts) == 1 and len(accs) == 1
-        if ok:
-            a = accs[0]
-            lp = next(x for x in ancestors(a) if isinstance(x, ast.For))
-            I, X, Ys = (norm(e) for e in lp.target.elts)
-            unit = any(ft.pol and norm(ft.test) == f"self.unit_Ys[{Ys}]" for ft in W.guard_facts(a))
-            num, den = W.factors(ast.parse(_d(f, a.value), mode="eval").body)
-            vname = [x for x in num if not x.startswith(f"{cols}[-1]")]
-            vdef = W.single_def(f.node, vname[0]) if len(vname) == 1 else None
-            hv = vdef is not None and isinstance(vdef, ast.Call) and W.call_name(vdef) == "_helper" and \
-                len(vdef.args) == 3 and [norm(W.deref(f.node, vdef.args[0])), norm(vdef.args[1]), norm(vdef.args[2])] == [f"({I}, {X})", cols, qn]
-            ok = unit and f"{cols}[-1].i_chart[{I}, {X}, {Ys}]" in num and len(num) == 2 and hv and _d(f, lp.iter) == f"{cols}[-1].waiting_for[{y}]"
-            st = [n for n in walk_live(outer[0]) if isinstance(n, ast.Assign) and isinstance(n.targets[0], ast.Subscript) and norm(n.targets[0].slice) == y]
-            ok = ok and len(st) == 1 and norm(st[0].value) == norm(a.target)
-        r.add(f, accs[0] if accs else outer[0], ok, "" if ok else "p[Y] must be Σ i_chart[I, X, Ys] · q(I, X) over the unit items waiting for the terminal Y")
-        # _helper
-        top, hc, hq = h.params[1], h.params[2], h.params[3]
+        a = accs[0]
+        lp = next((x for x in ancestors(a) if isinstance(x, ast.For) and x is not outer[0]), None)
+        u3 = _unpack3(f, lp) if lp is not None else None
+        if lp is None or u3 is None:
+            r.undecided(f, a, "item loop of next_token_weights not recognised", construct="next_token_weights: item loop")
+            continue
+        I, X, Ys, item = u3
+        facts = W.cfacts(f.node, a)
+        probs = []
+        if f"self.cfg.is_terminal({y})" not in facts:
+            probs.append(f"not restricted to terminal symbols ({sorted(facts)})")
+        if f"self.unit_Ys[{Ys}]" not in facts:
+            probs.append("items whose remainder is longer than the awaited symbol are included")
+        if W.citer(f.node, lp) not in (f"{cols}[-1].waiting_for[{y}]", f"{cols}[-1].waiting_for.get({y}, ())"):
+            probs.append(f"items are taken from `{W.citer(f.node, lp)}`")
+        num, den = W.cfactors(f.node, a.value, a)
+        keys = {_flat(f"{cols}[-1].i_chart[{it}]") for it in item}
+        others = [x for x in num if _flat(x) not in keys]
+        if len(others) != 1 or len(num) != 2 or den:
+            probs.append(f"summand is {' · '.join(num)}")
+        else:
+            vdef = None
+            try:
+                tree = ast.parse(others[0], mode="eval").body
+            except SyntaxError:
+                tree = None
+            if tree is not None:
+                for n in ast.walk(tree):
+                    if isinstance(n, ast.Call) and W.call_name(n) == "_helper":
+                        vdef = n
+                if vdef is None and isinstance(tree, ast.Name):
+                    d = W.single_def(f.node, tree.id)
+                    if isinstance(d, ast.Call):
+                        fn = d.func
+                        if (isinstance(fn, ast.Attribute) and fn.attr == "_helper") or \
+                                (isinstance(fn, ast.Name) and W.single_def(f.node, fn.id) is not None and norm(W.single_def(f.node, fn.id)) == "self._helper"):
+                            vdef = d
+            if vdef is None or len(vdef.args) != 3:
+                r.undecided(f, a, f"outside value `{others[0]}` not recognised", construct="next_token_weights: outside value")
+            else:
+                args = [_flat(W.cnorm(f.node, vdef.args[0], a)), norm(vdef.args[1]), norm(vdef.args[2])]
+                if args != [f"{I}, {X}", cols, qn]:
+                    probs.append(f"outside value is _helper({', '.join(args)})")
+        st = [n for n in walk_live(outer[0]) if isinstance(n, ast.Assign) and isinstance(n.targets[0], ast.Subscript) and norm(n.targets[0].slice) == y]
+        if len(st) != 1 or norm(st[0].value) != norm(a.target):
+            probs.append("the per-symbol total is not stored under the symbol")
+        r.add(f, a, not probs, "; ".join(probs), slots=dict(summand=num))
+        # ---- _helper
+        hc, hq = h.params[2], h.params[3]
         accs = [n for n in walk_live(h.node) if isinstance(n, ast.AugAssign) and isinstance(n.op, ast.Add) and norm(n.target).endswith(".value")]
-        edges = [n for n in walk_live(h.node) if isinstance(n, ast.Assign) and norm(n.targets[0]).endswith(".edges")]
-        ok = len(accs) == 1 and len(edges) == 1
-        if ok:
-            e = edges[0].value
-            ok = isinstance(e, ast.ListComp) and len(e.generators) == 1 and len(e.generators[0].ifs) == 1
-            if ok:
-                g = e.generators[0]
-                xv = norm(g.target)
-                ok = norm(g.ifs[0]) == f"self.unit_Ys[{xv}[2]]" and norm(e.elt) == xv and \
-                    _d(h, g.iter).startswith(f"{hc}[") and ".waiting_for" in _d(h, g.iter)
-            num, den = W.factors(accs[0].value)
-            ok = ok and len(num) == 2 and any(x.startswith(f"{hc}[") and ".i_chart[" in x for x in num)
-        r.add(h, accs[0] if accs else h.node, ok, "" if ok else "_helper: q(J, Y) must sum i_chart_J[customer] · q(I, X) over the unit customers of (J, Y)")
+        if len(accs) != 1:
+            r.undecided(h, h.node, "_helper: accumulation into the node value not recognised", construct="_helper accumulation")
+        else:
+            num, den = W.cfactors(h.node, accs[0].value, accs[0])
+            chart = [x for x in num if re.match(rf"^{re.escape(hc)}\[.+\]\.i_chart\[.+\]$", x)]
+            ok = len(num) == 2 and len(chart) == 1 and not den
+            r.add(h, accs[0], ok, "" if ok else f"_helper: q(J, Y) must accumulate i_chart_J[customer] · q(I, X); got {' · '.join(num)}", slots=dict(summand=num))
+        unit = [n for n in walk_live(h.node) if isinstance(n, ast.Subscript) and W.cnorm(h.node, n.value, n) == "self.unit_Ys"]
+        r.add(h, unit[0] if unit else h.node, bool(unit), "" if unit else "_helper follows customers whose remainder is longer than one symbol",
+              construct="_helper: unit-remainder filter")
         st = [n for n in walk_live(h.node) if isinstance(n, ast.Assign) and isinstance(n.targets[0], ast.Subscript) and W.is_name(n.targets[0].value, hq)]
-        ok = len(st) == 1 and norm(st[0].value).endswith(".value") and norm(st[0].targets[0].slice).endswith(".node")
-        r.add(h, st[0] if st else h.node, ok, "" if ok else "_helper must memoise the finished node's value under the node's own key")
+        if len(st) != 1:
+            r.undecided(h, h.node, "_helper: memo store not recognised", construct="_helper memo")
+        else:
+            ok = norm(st[0].value).endswith(".value") and norm(st[0].targets[0].slice).endswith(".node")
+            r.add(h, st[0], ok, "" if ok else "_helper must memoise the finished node's value under the node's own key")
     r.min_instances = 4 * len(files)
     return r
 
 
 def rule_factor_icky(P):
-    r = RuleResult("FACTOR-ICKY", "IncrementalCKY: extend_chart adds r.w·y·z to new[i][X] for Y over chart[j][i], rules X→Y Z indexed by Y, z = new[j][Z]; "
-                   "the preterminal cell is new[k-1][head] += r.w for rules of the last token; next_token_weights propagates "
-                   "α_j[Z] += r.w·y·α_i[X] and returns q[w] += r.w·α[k-1][head]; the start cell α[0][S] is seeded with one",
+    r = RuleResult("FACTOR-ICKY", "IncrementalCKY: extend_chart adds r.w·y·z to new[i][X] for (Y, y) over chart[j][i], rules X→Y Z indexed by Y, "
+                   "z = new[j][Z]; the preterminal cell is new[k-1][head] += r.w for rules of the last token; next_token_weights "
+                   "propagates α[j][Z] += r.w·y·α[i][X] and returns q[w] += r.w·α[k-1][head]; the start cell α[0][S] is seeded with one",
                    "incremental CKY recurrences are well-formed")
     ext = P.func("parse/cky.py::IncrementalCKY.extend_chart")
     ntw = P.func("parse/cky.py::IncrementalCKY.next_token_weights")
     r.looked_at(ext, ntw)
     for f, kind in ((ext, "inside"), (ntw, "outside")):
         accs = [n for n in walk_live(f.node) if isinstance(n, ast.AugAssign) and isinstance(n.op, ast.Add) and len(W.enclosing_loops(n)) >= 3]
-        ok = len(accs) == 1
-        if ok:
-            a = accs[0]
-            loops = W.enclosing_loops(a)  # innermost first
-            rl, yl, jl, sl = loops[0], loops[1], loops[2], loops[3] if len(loops) > 3 else None
-            rv = norm(rl.target)
-            Y, y = (norm(e) for e in yl.target.elts) if isinstance(yl.target, ast.Tuple) else ("?", "?")
-            j = norm(jl.target)
-            chart = f.params[1]
-            # i = k - span
-            ivar = None
-            for n in walk_live(f.node):
-                if isinstance(n, ast.Assign) and isinstance(n.targets[0], ast.Name) and isinstance(n.value, ast.BinOp) and isinstance(n.value.op, ast.Sub) \
-                        and sl is not None and norm(n.value.right) == norm(sl.target):
-                    ivar = n.targets[0].id
-            ok = _d(f, rl.iter) == f"self.r_y_xz[{Y}]" and _d(f, yl.iter) == f"{chart}[{j}][{ivar}].items()" \
-                and norm(jl.iter) == f"range({ivar} + 1, k)"
-            vexpr = ast.parse(_d(f, a.value), mode="eval").body
-            # inline x = r.w * y * z
-            if isinstance(a.value, ast.Name):
-                rd = W.reaching_def(f.node, a.value.id, a)
-                if rd and rd[1] is not None:
-                    vexpr = rd[1]
-            num, den = W.factors(vexpr)
-            tgt = _d(f, a.target)
-            if kind == "inside":
-                zdef = [n for n in walk_live(rl) if isinstance(n, ast.Assign) and isinstance(n.value, ast.Subscript) and _d(f, n.value) == f"new[{j}][{rv}.body[1]]"]
-                zname = zdef[0].targets[0].id if zdef else "?"
-                ok = ok and sorted(num) == sorted([f"{rv}.w", y, zname]) and not den and tgt == f"new[{ivar}][{rv}.head]"
-            else:
-                ok = ok and tgt == f"α[{j}][{rv}.body[1]]" and sorted(num) == sorted([f"{rv}.w", y, f"α[{ivar}][{rv}.head]"]) and not den
-        r.add(f, accs[0] if accs else f.node, ok, "" if ok else f"the binary {'inside' if kind == 'inside' else 'outside'} update of {f.name} is not of the stated form")
+        if len(accs) != 1:
+            r.undecided(f, f.node, f"{f.name}: binary update not recognised", construct=f"{f.name}: binary update")
+            continue
+        a = accs[0]
+        loops = W.enclosing_loops(a)  # innermost first
+        rl, yl = loops[0], loops[1]
+        rv = norm(rl.target)
+        if not (isinstance(yl.target, ast.Tuple) and len(yl.target.elts) == 2):
+            r.undecided(f, a, f"{f.name}: loop over the left child's cell not recognised", construct=f"{f.name}: binary update")
+            continue
+        Y, y = (norm(e) for e in yl.target.elts)
+        chart = f.params[1]
+        m = re.match(rf"^{re.escape(chart)}\[(?P<j>.+)\]\[(?P<i>.+)\]\.items\(\)$", W.citer(f.node, yl))
+        if m is None or W.citer(f.node, rl) != f"self.r_y_xz[{Y}]":
+            r.undecided(f, a, f"{f.name}: iteration space `{W.citer(f.node, yl)}` / `{W.citer(f.node, rl)}` not recognised", construct=f"{f.name}: binary update")
+            continue
+        j, i = m.group("j"), m.group("i")
+        val = a.value
+        at = a
+        if isinstance(val, ast.Name):
+            rd = W.reaching_def(f.node, val.id, a)
+            if rd and rd[1] is not None:
+                val, at = rd[1], rd[0]
+        num, den = W.cfactors(f.node, val, at)
+        tgt = W.cnorm(f.node, a.target, a)
+        cy = W.cnorm(f.node, ast.parse(y, mode="eval").body, a)
+        if kind == "inside":
+            want_t = f"new[{i}][{rv}.head]"
+            want = sorted([f"{rv}.w", cy, f"new[{j}][{rv}.body[1]]"])
+        else:
+            want_t = f"α[{j}][{rv}.body[1]]"
+            want = sorted([f"{rv}.w", cy, f"α[{i}][{rv}.head]"])
+        ok = tgt == want_t and sorted(num) == want and not den
+        r.add(f, a, ok, "" if ok else f"{f.name}: `{tgt} += {' · '.join(num)}`; expected `{want_t} += {' · '.join(want)}`", slots=dict(target=tgt, summand=num))
     # preterminal cells
     pre = [n for n in walk_live(ext.node) if isinstance(n, ast.AugAssign) and isinstance(n.op, ast.Add) and len(W.enclosing_loops(n)) == 1
-           and norm(n.value).endswith(".w")]
-    ok = len(pre) == 1
-    if ok:
+           and W.cnorm(ext.node, n.value, n).endswith(".w")]
+    if len(pre) != 1:
+        r.undecided(ext, ext.node, "extend_chart: preterminal update not recognised", construct="extend_chart: preterminal cell")
+    else:
         a = pre[0]
         lp = W.enclosing_loops(a)[0]
         rv = norm(lp.target)
-        p = ext.params[2]
-        ok = _d(ext, a.target) == f"new[k - 1][{rv}.head]" and norm(lp.iter) == f"self.terminal[{p}[k - 1]]"
-    r.add(ext, pre[0] if pre else ext.node, ok, "" if ok else "extend_chart: the preterminal cell must be new[k-1][r.head] += r.w for rules of the last token")
+        pfx = ext.params[2]
+        ok = W.cnorm(ext.node, a.target, a) == f"new[len({pfx}) - 1][{rv}.head]" and W.citer(ext.node, lp) == f"self.terminal[{pfx}[len({pfx}) - 1]]"
+        r.add(ext, a, ok, "" if ok else f"extend_chart: the preterminal cell must be new[k-1][r.head] += r.w for rules of the last token "
+              f"(got `{W.cnorm(ext.node, a.target, a)}` over `{W.citer(ext.node, lp)}`)")
     q = [n for n in walk_live(ntw.node) if isinstance(n, ast.AugAssign) and isinstance(n.op, ast.Add) and len(W.enclosing_loops(n)) == 2
-         and not any(isinstance(x, ast.For) and "range" in norm(x.iter) for x in W.enclosing_loops(n))]
-    ok = len(q) == 1
-    if ok:
+         and not any("range" in norm(x.iter) for x in W.enclosing_loops(n))]
+    if len(q) != 1:
+        r.undecided(ntw, ntw.node, "next_token_weights: per-token sum not recognised", construct="next_token_weights: per-token sum")
+    else:
         a = q[0]
         inner, outer = W.enclosing_loops(a)
         rv, w = norm(inner.target), norm(outer.target)
-        num, den = W.factors(ast.parse(_d(ntw, a.value), mode="eval").body)
-        ok = norm(inner.iter) == f"self.terminal[{w}]" or _d(ntw, inner.iter) == f"self.terminal[{w}]"
-        ok = ok and sorted(num) == sorted([f"{rv}.w", f"α[k - 1][{rv}.head]"]) and norm(a.target.slice) == w and _d(ntw, outer.iter) == "self.cfg.V"
-    r.add(ntw, q[0] if q else ntw.node, ok, "" if ok else "next_token_weights: q[w] must be Σ r.w · α[k-1][r.head] over the preterminal rules of w, for every w in V")
+        num, den = W.cfactors(ntw.node, a.value, a)
+        alpha = [x for x in num if x != f"{rv}.w"]
+        ok = W.citer(ntw.node, inner) == f"self.terminal[{w}]" and f"{rv}.w" in num and len(num) == 2 and not den and norm(a.target.slice) == w \
+            and W.citer(ntw.node, outer) == "self.cfg.V" and re.match(rf"^α\[.+\]\[{re.escape(rv)}\.head\]$", alpha[0]) is not None
+        r.add(ntw, a, ok, "" if ok else "next_token_weights: q[w] must be Σ r.w · α[k-1][r.head] over the preterminal rules of w, for every w in V",
+              slots=dict(summand=num))
     seed = [n for n in walk_live(ntw.node) if isinstance(n, ast.AugAssign) and norm(n.value).endswith(".one")]
-    ok = len(seed) == 1 and _d(ntw, seed[0].target) == "α[0][self.cfg.S]"
-    r.add(ntw, seed[0] if seed else ntw.node, ok, "" if ok else "the outside pass must be seeded with α[0][S] = one")
+    if len(seed) != 1:
+        r.undecided(ntw, ntw.node, "next_token_weights: seed of the outside pass not recognised", construct="next_token_weights: seed")
+    else:
+        ok = W.cnorm(ntw.node, seed[0].target, seed[0]) == "α[0][self.cfg.S]"
+        r.add(ntw, seed[0], ok, "" if ok else "the outside pass must be seeded with α[0][S] = one")
     r.min_instances = 5
     return r
